@@ -2,11 +2,13 @@ package props
 
 import (
 	"encoding/json"
+	"errors"
 	"fmt"
 	"os"
 	"path/filepath"
 
 	bolt "go.etcd.io/bbolt"
+	berrors "go.etcd.io/bbolt/errors"
 	"go.etcd.io/bbolt/xverif/dec"
 	"go.etcd.io/bbolt/xverif/sim"
 	"go.etcd.io/bbolt/xverif/work"
@@ -267,7 +269,15 @@ func (rs reclaimsim) Run(c *Case, dir string) *Outcome {
 			// a write transaction that modifies the tree (and sometimes deletes a nested paged bucket) and then
 			// fails *physically*: its Update body panics, or an I/O call of its commit fails. Afterwards no page of
 			// an open reader's version may have become reusable and nothing may stay withheld for longer.
-			how := t.Pick(1, 2)
+			how := t.Pick(2, 4, 1)
+			st0 := e.DB.Stats()
+			if how == 2 {
+				// a transaction that first uses up free pages and then needs the file to grow while a size limit
+				// forbids it: the failure comes out of the spill phase, before anything was written
+				if fi, serr := os.Stat(path); serr == nil {
+					e.DB.MaxSize = int(fi.Size())
+				}
+			}
 			if how == 1 {
 				disk.Fired, disk.Calls = "", 0
 				disk.Plan = &sim.FaultPlan{K: t.Intn(8), Kind: []string{"eio", "short", "enospc"}[t.Intn(3)]}
@@ -298,6 +308,13 @@ func (rs reclaimsim) Run(c *Case, dir string) *Outcome {
 							_ = nb.DeleteBucket([]byte(fmt.Sprintf("child-%d", t.Intn(4))))
 						}
 					}
+					if how == 2 {
+						for j := 0; j < st0.FreePageN+8; j++ {
+							if err := b.Put([]byte(fmt.Sprintf("grow-%05d", j)), work.MkVal(ps-100, 7100000+uint32(j))); err != nil {
+								return err
+							}
+						}
+					}
 					if how == 0 {
 						panic(work.PanicBody)
 					}
@@ -306,7 +323,20 @@ func (rs reclaimsim) Run(c *Case, dir string) *Outcome {
 			}()
 			disk.Arm(false)
 			disk.Plan = nil
+			e.DB.MaxSize = 0
+			failedPhysically := how == 0 || (how == 1 && disk.Fired != "") || (how == 2 && ferr != nil)
+			if failedPhysically {
+				// whatever the failed transaction took from the free list is back: no space is lost by a failure
+				if st1 := e.DB.Stats(); st1.FreePageN+st1.PendingPageN != st0.FreePageN+st0.PendingPageN {
+					fail("space-lost-by-failed-transaction", "a write transaction failed (%v) and %d free + %d pending pages became %d free + %d pending: pages taken from the free list by the failed transaction were not given back", ferr, st0.FreePageN, st0.PendingPageN, st1.FreePageN, st1.PendingPageN)
+				}
+			}
 			switch {
+			case how == 2 && ferr != nil:
+				out.fault("size-limit-failure-in-spill", 1)
+				if !errors.Is(ferr, berrors.ErrMaxSizeReached) {
+					fail("update-error", "%v", ferr)
+				}
 			case how == 0:
 				out.fault("update-body-panics(physical rollback)", 1)
 			case disk.Fired != "":
@@ -325,7 +355,7 @@ func (rs reclaimsim) Run(c *Case, dir string) *Outcome {
 					used[int(p.Meta.Txid)] = p.UsedSet()
 				}
 			}
-			if len(readers) > 0 && (how == 0 || disk.Fired != "") {
+			if len(readers) > 0 && failedPhysically {
 				out.fault("physical-rollback-with-readers-open", 1)
 			}
 			disk.Fired = ""
@@ -480,6 +510,6 @@ func (rs reclaimsim) Shrinks(c *Case) []*Case {
 func init() {
 	register(&Info{Prop: "C10", Engine: reclaimsim{}, Level: "exploration", QuickS: 45, ThoroughS: 600,
 		RealStub: "real: all of bbolt (tag verif), real file + mmap; injected: I/O errors in some commits (through the I/O hooks); observed: every pwrite (pages of open readers' versions must not be written); oracle inputs come from the independent decoder (page sets per version); simulated: map iteration order / span choice",
-		Rule:     "one evaluation = one seeded overwrite workload of 20-200 write transactions on one bucket with a reader pattern between transactions (none / one long-lived / staggered open+close / bursts closing at once), optional reopenings, abandoned transactions (user Rollback / failing body) and physically rolled-back ones (a panicking Update body; an injected I/O failure - EIO, short write, ENOSPC - at a tape-chosen I/O call of the commit), both backends, freelist-sync on/off. After every commit made with no reader open, Stats().PendingPageN must not exceed the number of pages of the previous version that the new version no longer uses (computed by dec/); the same bound must hold from the first commit after the last reader closed; no pwrite may touch a page of an open reader's version; for steady single-page-node workloads of >= 50 transactions the high-water mark must stay <= max live pages + 2 x largest per-transaction release + 2 x freelist pages + 8. distinct = distinct (final hwm, live pages, released, pattern, sizes)",
+		Rule:     "one evaluation = one seeded overwrite workload of 20-200 write transactions on one bucket with a reader pattern between transactions (none / one long-lived / staggered open+close / bursts closing at once), optional reopenings, abandoned transactions (user Rollback / failing body) and physically rolled-back ones (a panicking Update body; an injected I/O failure - EIO, short write, ENOSPC - at a tape-chosen I/O call of the commit; a size-limit failure in the spill phase after free pages were used up), after each of which free + pending space must be what it was before, both backends, freelist-sync on/off. After every commit made with no reader open, Stats().PendingPageN must not exceed the number of pages of the previous version that the new version no longer uses (computed by dec/); the same bound must hold from the first commit after the last reader closed; no pwrite may touch a page of an open reader's version; for steady single-page-node workloads of >= 50 transactions the high-water mark must stay <= max live pages + 2 x largest per-transaction release + 2 x freelist pages + 8. distinct = distinct (final hwm, live pages, released, pattern, sizes)",
 		Assume:   []string{"single task: reader open/close events happen between write transactions (the concurrent form is exercised by the C02 arm)", "the growth bound is only asserted when no multi-page node or multi-page freelist ever appeared (fragmentation could otherwise legitimately force growth)"}})
 }
